@@ -319,7 +319,7 @@ func main() {
 		}
 	}
 
-	required := []string{"CreateTableStm", "DropTableStm", "AlterTableAddColumnFirstStm", "AlterTableAddColumnAfterStm",
+	required := []string{"CreateTableStm", "DropTableStm", "AlterTableAddColumnStm", "AlterTableAddColumnFirstStm", "AlterTableAddColumnAfterStm",
 		"AlterTableDropColumnStm", "AlterTableModifyColumnStm", "AlterTableRenameColumnStm", "CreatePrimaryKeyStm",
 		"CreateForeignKeyStm", "CreateIndexStm", "CreateUniqueIndexStm", "DropPrimaryKeyStm", "DropForeignKeyStm",
 		"DropIndexStm", "AlterTableRenameIndexStm", "CreateTableMigration", "DropTableMigration", "InsertMigrationVersion",
